@@ -51,6 +51,9 @@ impl<'a> Cx<'a> {
         if self.has_effects {
             parts.push("effs_".into());
         }
+        if self.vm_mode {
+            parts.push("vm_".into());
+        }
         let tuple = if parts.len() == 1 { parts[0].clone() } else { format!("({})", parts.join(", ")) };
         if self.loop_depth > 0 {
             // inside a `loop` body: leaving the function = leaving the loop with the function's answer
@@ -65,8 +68,8 @@ impl<'a> Cx<'a> {
         for (n, is_place) in vars {
             if *is_place {
                 out.push(self.place(n)?.lean);
-            } else if n == "effs_" {
-                out.push("effs_".into());
+            } else if n == "effs_" || n == "vm_" {
+                out.push(n.clone());
             } else {
                 match self.lookup(n) {
                     Some(v) => out.push(v.lean),
@@ -137,6 +140,12 @@ impl<'a> Cx<'a> {
         if effects && self.has_effects {
             out.push(("effs_".into(), false));
         }
+        if self.vm_mode {
+            out.retain(|(n, is_place)| !(*is_place && vm_place(n).is_some()));
+            if !out.iter().any(|(n, _)| n == "vm_") {
+                out.push(("vm_".into(), false));
+            }
+        }
         Ok(out)
     }
 
@@ -159,8 +168,8 @@ impl<'a> Cx<'a> {
             };
             let lean = if *is_place {
                 self.place(name)?.lean
-            } else if name == "effs_" {
-                "effs_".to_string()
+            } else if name == "effs_" || name == "vm_" {
+                name.clone()
             } else {
                 self.lookup(name).map(|v| v.lean).unwrap_or_else(|| lean_ident(name))
             };
@@ -233,6 +242,35 @@ impl<'a> Cx<'a> {
     }
 
     fn assign_to(&mut self, target: &Expr, value: Tx, rest: &[Stmt], k: &Kont) -> R<String> {
+        if self.vm_mode {
+            if let Some(p) = self.path_of(target) {
+                if let Some((term, ty)) = vm_place(&p) {
+                    if ty != value.ty {
+                        return self.un(format!("assignment to `{}`: modelled types differ", p));
+                    }
+                    let field = term.trim_start_matches("vm_.");
+                    let body = self.block(rest, k)?;
+                    return Ok(wrap_pre(&value.pre, format!("(let vm_ := {{ vm_ with {} := {} }};\n  {})", field, value.term, body)));
+                }
+            }
+            if let Expr::Index(ix) = target {
+                if let Some(p) = self.path_of(&ix.expr) {
+                    if let Some((term, LT::List(elem))) = vm_place(&p) {
+                        if *elem != value.ty {
+                            return self.un(format!("element assignment into `{}`: modelled types differ", p));
+                        }
+                        let i = self.expr(&ix.index, Some(&LT::I("usize")))?;
+                        let mut pre = i.pre;
+                        pre.extend(value.pre);
+                        let v = self.fresh("t");
+                        pre.push(Pre::Bind(v.clone(), format!("(Rs.setIdx {} {} {})", term, i.term, value.term)));
+                        let field = term.trim_start_matches("vm_.");
+                        let body = self.block(rest, k)?;
+                        return Ok(wrap_pre(&pre, format!("(let vm_ := {{ vm_ with {} := {} }};\n  {})", field, v, body)));
+                    }
+                }
+            }
+        }
         if let Some(p) = self.path_of(target) {
             if !self.written.contains(&p) {
                 return self.un(format!("internal: write to `{}` missed by the pre-pass", p));
@@ -472,6 +510,41 @@ impl<'a> Cx<'a> {
                     Some(i) if i.diverge.is_none() => (*i.expr).clone(),
                     _ => return self.un("`let` without initialiser (or with `else`) not modelled"),
                 };
+                // `let PAT = match S { P => E, _ => { …; return … } };`: the arms that do not leave the function bind PAT and go on
+                if let Expr::Match(mm) = &init {
+                    let scrut = self.expr(&mm.expr, None)?;
+                    if matches!(scrut.ty, LT::Value | LT::Tup(_)) && mm.arms.iter().all(|a| a.guard.is_none()) {
+                        let snapshot = self.snapshot();
+                        let mut arms = String::new();
+                        for a in &mm.arms {
+                            self.restore(&snapshot);
+                            self.scopes.push(BTreeMap::new());
+                            let sty = scrut.ty.clone();
+                            let pat = self.pattern(&a.pat, &sty)?;
+                            let diverges = matches!(&*a.body, Expr::Block(b) if matches!(b.block.stmts.last(), Some(Stmt::Expr(Expr::Return(_), _))))
+                                || matches!(&*a.body, Expr::Return(_));
+                            let body = if diverges {
+                                let v = match &*a.body {
+                                    Expr::Block(b) => b.block.stmts.clone(),
+                                    other => vec![Stmt::Expr(other.clone(), Some(Default::default()))],
+                                };
+                                self.block(&v, k)?
+                            } else {
+                                let mut local = l.clone();
+                                if let Some(li) = local.init.as_mut() {
+                                    li.expr = a.body.clone();
+                                }
+                                let mut v = vec![Stmt::Local(local)];
+                                v.extend_from_slice(rest);
+                                self.block(&v, k)?
+                            };
+                            self.scopes.pop();
+                            arms.push_str(&format!("\n  | {} =>\n  {}", pat, body));
+                        }
+                        self.restore(&snapshot);
+                        return Ok(wrap_pre(&scrut.pre, format!("(match {} with{})", scrut.term, arms)));
+                    }
+                }
                 // tuple pattern
                 if let Pat::Tuple(tp) = &l.pat {
                     let tx = self.expr(&init, None)?;
@@ -499,7 +572,10 @@ impl<'a> Cx<'a> {
                 }
                 // `let x = self.m(args);` where `m` takes `&mut self` and is not translated: an effect whose answer is an input
                 if let Expr::MethodCall(mc) = &init {
-                    if self.path_of(&mc.receiver).as_deref() == Some("self") {
+                    let intrinsic = self.vm_mode
+                        && (matches!(mc.method.to_string().as_str(), "pop" | "read_byte" | "read_short" | "peek" | "try_handle_error")
+                            || self.callees.get(&mc.method.to_string()).map(|s| s.lean.starts_with("vm_")).unwrap_or(false));
+                    if !intrinsic && self.path_of(&mc.receiver).as_deref() == Some("self") {
                         if let Some(rt) = self.mut_self_method_ret(&mc.method.to_string()) {
                             let lt = self.conv(&rt);
                             if matches!(lt, LT::I(_) | LT::BV(_) | LT::Bool) {
@@ -599,6 +675,17 @@ impl<'a> Cx<'a> {
                         self.block(rest, k)
                     }
                     Expr::Macro(m) if matches!(path_to_string(&m.mac.path).as_str(), "panic" | "unreachable") => Ok("Rs.M.panic".into()),
+                    Expr::Try(_) if semi.is_some() => {
+                        // `f(..)?;` for its effect: evaluated, the value discarded
+                        let tx = self.expr(e, None)?;
+                        let body = self.block(rest, k)?;
+                        Ok(wrap_pre(&tx.pre, body))
+                    }
+                    Expr::MethodCall(mc) if self.vm_mode && self.path_of(&mc.receiver).as_deref() == Some("self") && self.vm_statement(mc).is_some() => {
+                        let (pre, upd) = self.vm_statement_tx(mc)?;
+                        let body = self.block(rest, k)?;
+                        Ok(wrap_pre(&pre, format!("({}{})", upd, body)))
+                    }
                     Expr::MethodCall(_) | Expr::Call(_) if semi.is_some() => {
                         // a translated plain callee used for its value is handled by `expr`; a statement call is an effect
                         self.opaque_call(e, rest, k)
@@ -621,9 +708,101 @@ impl<'a> Cx<'a> {
         }
     }
 
+    fn vm_statement(&self, mc: &syn::ExprMethodCall) -> Option<()> {
+        match (mc.method.to_string().as_str(), mc.args.len()) {
+            ("push", 1) | ("poke", 2) | ("discard", 1) => Some(()),
+            _ => None,
+        }
+    }
+
+    /// `self.push(v);` / `self.poke(d, v);` / `self.discard(n);` on the abstract interpreter state
+    fn vm_statement_tx(&mut self, mc: &syn::ExprMethodCall) -> R<(Vec<Pre>, String)> {
+        let args: Vec<&Expr> = mc.args.iter().collect();
+        match (mc.method.to_string().as_str(), args.len()) {
+            ("push", 1) => {
+                let x = self.expr(args[0], Some(&LT::Value))?;
+                if x.ty != LT::Value {
+                    return self.un("push of something that is not a modelled Value");
+                }
+                Ok((x.pre, format!("let vm_ := Rs.Vm.push vm_ {};\n  ", x.term)))
+            }
+            ("poke", 2) => {
+                let d = self.expr(args[0], Some(&LT::I("usize")))?;
+                let x = self.expr(args[1], Some(&LT::Value))?;
+                let mut pre = d.pre;
+                pre.extend(x.pre);
+                let v = self.fresh("t");
+                pre.push(Pre::Bind(v.clone(), format!("(Rs.Vm.poke vm_ {} {})", d.term, x.term)));
+                Ok((pre, format!("let vm_ := {};\n  ", v)))
+            }
+            ("discard", 1) => {
+                let n = self.expr(args[0], Some(&LT::I("usize")))?;
+                let mut pre = n.pre;
+                let v = self.fresh("t");
+                pre.push(Pre::Bind(v.clone(), format!("(Rs.Vm.discard vm_ {})", n.term)));
+                Ok((pre, format!("let vm_ := {};\n  ", v)))
+            }
+            _ => self.un("internal: not a statement intrinsic"),
+        }
+    }
+
+    /// A pattern over the modelled types (Value variants, Option, tuples, binders); binders are declared in the current scope.
+    fn pattern(&mut self, p: &Pat, ty: &LT) -> R<String> {
+        match (p, ty) {
+            (Pat::Wild(_), _) => Ok("_".into()),
+            (Pat::Reference(r), _) => self.pattern(&r.pat, ty),
+            (Pat::Paren(r), _) => self.pattern(&r.pat, ty),
+            (Pat::Ident(i), LT::Opt(_)) if i.ident == "None" => Ok("none".into()),
+            (Pat::Ident(i), _) if i.subpat.is_none() => Ok(self.declare(&i.ident.to_string(), ty.clone())),
+            (Pat::TupleStruct(ts), LT::Opt(t)) if toks(&ts.path) == "Some" && ts.elems.len() == 1 => {
+                Ok(format!("(some {})", self.pattern(&ts.elems[0], t)?))
+            }
+            (Pat::TupleStruct(ts), LT::Value) if ts.elems.len() == 1 => {
+                let name = toks(&ts.path).replace(' ', "");
+                match name.as_str() {
+                    "Value::Number" => Ok(format!("(Rs.Value.Number {})", self.pattern(&ts.elems[0], &LT::F64)?)),
+                    "Value::Boolean" => Ok(format!("(Rs.Value.Boolean {})", self.pattern(&ts.elems[0], &LT::Bool)?)),
+                    other => self.un(format!("pattern `{}`: this variant of Value is not modelled", other)),
+                }
+            }
+            (Pat::Path(pp), LT::Value) if toks(&pp.path).replace(' ', "") == "Value::None" => Ok("Rs.Value.None".into()),
+            (Pat::Tuple(tp), LT::Tup(ts)) if tp.elems.len() == ts.len() => {
+                let mut parts = Vec::new();
+                for (q, t) in tp.elems.iter().zip(ts.iter()) {
+                    parts.push(self.pattern(q, t)?);
+                }
+                Ok(format!("({})", parts.join(", ")))
+            }
+            (q, t) => self.un(format!("pattern `{}` against {:?} not modelled", toks(q), t)),
+        }
+    }
+
     fn stmt_match(&mut self, m: &syn::ExprMatch, rest: &[Stmt], k: &Kont) -> R<String> {
         let scrut = self.expr(&m.expr, None)?;
         let snapshot = self.snapshot();
+        // (0) match over Value / tuples of modelled values, with the general pattern compiler
+        if matches!(scrut.ty, LT::Value | LT::Tup(_)) && m.arms.iter().all(|a| a.guard.is_none()) {
+            let mut arms = String::new();
+            for a in &m.arms {
+                self.restore(&snapshot);
+                self.scopes.push(BTreeMap::new());
+                let sty = scrut.ty.clone();
+                let pat = self.pattern(&a.pat, &sty)?;
+                let mut v = match &*a.body {
+                    Expr::Block(b) => b.block.stmts.clone(),
+                    other => vec![Stmt::Expr(other.clone(), None)],
+                };
+                if !rest.is_empty() {
+                    v = seal(v);
+                    v.extend_from_slice(rest);
+                }
+                let body = self.block(&v, k)?;
+                self.scopes.pop();
+                arms.push_str(&format!("\n  | {} =>\n  {}", pat, body));
+            }
+            self.restore(&snapshot);
+            return Ok(wrap_pre(&scrut.pre, format!("(match {} with{})", scrut.term, arms)));
+        }
         // (1) `match n { v if v == X as usize => A, …, _ => panic!() }`  -> if-chain
         let all_guarded = m.arms.iter().all(|a| matches!(&a.pat, Pat::Ident(_)) && a.guard.is_some() || matches!(&a.pat, Pat::Wild(_)));
         if all_guarded {
